@@ -7,7 +7,7 @@ from vlib.workers import ALL, WorkerDied, WorkerSet
 
 PROPERTY = "C17"
 LEVEL = "exploration"
-RULE = ("(A module imported with importlib.util.LazyLoader that has both kinds of glue: not loaded by the scan, no built-in glue while unloaded, its own glue exactly once after the program has used it.) (Re-entry: a module's glue function extracts a stack itself; a glue function fails and the program's warnings.showwarning hook extracts one - every extraction returns, each glue runs once, the other module's glue is installed too.) History leg: Hypothesis-generated sequences (3-14 operations) over 4 module slots: add a fresh module {with its own "
+RULE = ("(A module with both kinds of glue that is in sys.modules under two names, in three orders: its own glue once, the built-in one never.) (A module imported with importlib.util.LazyLoader that has both kinds of glue: not loaded by the scan, no built-in glue while unloaded, its own glue exactly once after the program has used it.) (Re-entry: a module's glue function extracts a stack itself; a glue function fails and the program's warnings.showwarning hook extracts one - every extraction returns, each glue runs once, the other module's glue is installed too.) History leg: Hypothesis-generated sequences (3-14 operations) over 4 module slots: add a fresh module {with its own "
         "_stackscope_install_glue_ | with built-in glue pending | both | neither | own glue that raises | built-in glue that "
         "raises | both kinds with the module's own glue raising | a None entry | a present module whose built-in glue, declared now, fails (must warn, not raise) | a module of a lazily-loading type (any attribute access, __dict__ included, would make it load: an extraction must not) | a module that is already in sys.modules when the built-in glue for it is declared (the situation of every module imported before stackscope), without or with glue of its own | [during an extraction, by a hook that then calls extract_child(): the glue must have run when that nested extraction returns] | own glue that, when run, inserts a further glue-bearing helper module (which may be handled by the running extraction or the next one)}, remove, re-insert (same object, a new module object of the same name and kind, or - where the name belonged to a glue-less module or a None entry - a new module object that does have glue), extract; a third of the histories are built around one name changing hands (add, optionally extract, remove, re-insert, filler insertion, extract); judged after "
         "every extract by a model (per module object: own glue unrun?; per name: built-in glue pending and not superseded?): the "
@@ -152,12 +152,12 @@ def shard(arg):
     if out.violations:
         return out
     with WorkerSet(interps, hooks=True) as ws:
-        if arg.get("lazyboth"):
-            case = {"lazyboth": True}
+        for fixed in (["lazyboth", "alias"] if arg.get("lazyboth") else []):
+            case = {fixed: True}
             for interp in interps:
                 for _rep in range(2):
                     try:
-                        res = ws[interp].request({"op": "glue.lazyboth"})
+                        res = ws[interp].request({"op": "glue." + fixed})
                     except WorkerDied as ex:
                         out.violation("interpreter %s died (exit %r)" % (interp, ex.returncode), case, interp)
                         break
@@ -165,9 +165,11 @@ def shard(arg):
                     if res["obs"]:
                         out.violation("%s on %s: %r" % (res["obs"][0]["kind"], interp, res["obs"][0]), case, interp)
                         break
-            out.note_case(case, True, classes=["lazily_imported_module_with_both_kinds_of_glue"], n_eval=2 * len(interps))
-            if out.violations:
-                return out
+            out.note_case(case, True, classes=[{"lazyboth": "lazily_imported_module_with_both_kinds_of_glue",
+                                                "alias": "module_with_both_kinds_of_glue_under_two_names"}[fixed]],
+                          n_eval=2 * len(interps))
+        if out.violations:
+            return out
         fail = hyp_search(st.one_of(histories(), histories(), reuse_histories()), lambda c: check_history(ws, interps, c, out, arg["open"]), seed=arg["seed"],
                           max_examples=arg["n"], shrink=arg["shrink"])
         if fail:
@@ -197,10 +199,10 @@ def replay(ctx, data):
     out = Outcome()
     interps = [data["interp"]] if data.get("interp") in ALL else ALL
     case = data["case"]
-    if "lazyboth" in case:
+    if "lazyboth" in case or "alias" in case:
         with WorkerSet(interps, hooks=True) as ws:
             for interp in interps:
-                res = ws[interp].request({"op": "glue.lazyboth"})
+                res = ws[interp].request({"op": "glue.lazyboth" if "lazyboth" in case else "glue.alias"})
                 out.note_case(case, True)
                 if res["obs"]:
                     out.violation("%s on %s: %r" % (res["obs"][0]["kind"], interp, res["obs"][0]), case, interp)
